@@ -209,8 +209,56 @@ def item_tiebreak(repo):
     return '\n'.join(out) + '\n'
 
 
+def fmt_pieces(fmt, args, sep_expr_ok):
+    """translate a Rust format string with {} holes into a Lean append expression"""
+    parts = re.split(r'(\{\})', fmt)
+    out, k = [], 0
+    for part in parts:
+        if part == '{}':
+            out.append(args[k]); k += 1
+        elif part:
+            out.append(lean_bytes(part.encode()))
+    if k != len(args):
+        raise ValueError('format holes/args mismatch')
+    return ' ++ '.join(out)
+
+
+def item_codegen(repo):
+    c = strip_comments(read(repo, 'crates/anemo-build/src/client.rs'))
+    s = strip_comments(read(repo, 'crates/anemo-build/src/server.rs'))
+    sep_re = r'if\s+(?:service\.package\(\)|package)\.is_empty\(\)\s*\{\s*""\s*\}\s*else\s*\{\s*"([^"]*)"\s*\}'
+    def path_fmt(src, what):
+        m = re.search(r'let\s+path\s*=\s*format!\(\s*"([^"]*)"\s*,\s*(?:service\.package\(\)|package)\s*,\s*' + sep_re + r'\s*,\s*service\.identifier\(\)\s*(?:,\s*method\.identifier\(\)\s*)?,?\s*\)', src)
+        if not m:
+            raise ValueError('path format! in ' + what)
+        return m.group(1), m.group(2)
+    out = ''
+    # client: generate_methods
+    gm = block_after(c, r'fn\s+generate_methods\s*\(')
+    f, sep = path_fmt(gm, 'client.rs generate_methods')
+    out += 'def clientPathGen (pkg svc m : Bytes) : Bytes :=\n  ' + fmt_pieces(f, ['pkg', f'(if pkg.isEmpty then [] else {lean_bytes(sep.encode())})', 'svc', 'm'], True) + '\n'
+    # server: generate_method_routes
+    gr = block_after(s, r'fn\s+generate_method_routes\s*\(')
+    f, sep = path_fmt(gr, 'server.rs generate_method_routes')
+    out += 'def serverPathGen (pkg svc m : Bytes) : Bytes :=\n  ' + fmt_pieces(f, ['pkg', f'(if pkg.isEmpty then [] else {lean_bytes(sep.encode())})', 'svc', 'm'], True) + '\n'
+    # server: SERVICE_NAME
+    g = block_after(s, r'pub\s+fn\s+generate\s*\(')
+    f, sep = path_fmt(g, 'server.rs generate (service name)')
+    out += 'def serviceNameGen (pkg svc : Bytes) : Bytes :=\n  ' + fmt_pieces(f, ['pkg', f'(if pkg.isEmpty then [] else {lean_bytes(sep.encode())})', 'svc'], True) + '\n'
+    if not re.search(r'generate_transport\(\s*&server_service\s*,\s*&server_trait\s*,\s*&path\s*\)', g):
+        raise ValueError('SERVICE_NAME is not built from `path`')
+    # router prefix of add_rpc_service
+    r = strip_comments(read(repo, 'crates/anemo/src/routing/mod.rs'))
+    ar = block_after(r, r'pub\s+fn\s+add_rpc_service')
+    m = re.search(r'format!\(\s*"([^"]*)"\s*,\s*S::SERVICE_NAME\s*\)', ar)
+    if not m:
+        raise ValueError('add_rpc_service format!')
+    out += 'def rpcRoutePatternGen (name : Bytes) : Bytes :=\n  ' + fmt_pieces(m.group(1), ['name'], True) + '\n'
+    return out
+
+
 ITEMS = [('ANEMO', item_anemo), ('Version', item_version), ('StatusCode', item_status),
-         ('headers', item_headers), ('ConfigDefaults', item_config), ('tieBreak', item_tiebreak)]
+         ('headers', item_headers), ('ConfigDefaults', item_config), ('tieBreak', item_tiebreak), ('codegen', item_codegen)]
 
 HEADER = '''/- GENERATED by /verif/tools/gen.py from /repo's working tree on every run -- do not edit. -/
 import AnemoModel.Basic
